@@ -28,6 +28,24 @@ def tableShape : List Node → Bool
 
 def isCellK : Kind → Bool | .tableCell _ => true | _ => false
 
+/-- attribute names the renderer function of this kind writes itself *and* whose allow-list would also let the
+    same name through from the node's own attributes (`<ol start=…>`, `title` of links and images, the footnote
+    `<li id=…>`, `class`/`role` of the footnote list `<div>`). -/
+def fixedAttrNames : Kind → List Bytes
+  | .list ordered start => if ordered && start != 1 then [strBytes "start"] else []
+  | .link _ (some _) => [strBytes "title"]
+  | .image _ (some _) => [strBytes "title"]
+  | .footnote _ => [strBytes "id"]
+  | .footnoteList => [strBytes "class", strBytes "role"]
+  | _ => []
+
+/-- the node's own attributes do not repeat a name its renderer function writes itself (otherwise the start tag
+    carries the same attribute twice: HTML parsers ignore the second, XML parsers reject the document). The
+    parsers only ever attach attributes to headings, which have no fixed attributes. -/
+def noClash (k : Kind) : Option (List Attr) → Bool
+  | none => true
+  | some as => as.all fun a => !(fixedAttrNames k).contains a.name
+
 inductive Ctx | any | table | row
 deriving DecidableEq
 
@@ -35,7 +53,7 @@ mutual
 /-- `ctx` = what the parent is (table kinds are only allowed in their places) -/
 def nodeInv (rc : RCfg) (ctx : Ctx) : Node → Bool
   | .mk k attrs cs =>
-    attrsInv attrs &&
+    attrsInv attrs && noClash k attrs &&
     (match k with
      | .heading level => 1 ≤ level && level ≤ 6
      | .codeSpan => codeSpanChildrenText cs
